@@ -24,13 +24,20 @@ def nontrivial(req, obs):
         return any(d in ("i", "d", "n") for d in ds) and any(d in ("e", "l") for d in ds)
     if f[0] == "C11.cond":
         return len(f) > 2 and any(op in f[2].split(" ") for op in ("||", "&&", "==", "!=", "<", "<~", ">", ">~"))
+    if f[0] == "C11.raw":
+        # a conditional with a second group, and something that can be selected or skipped
+        t = "\t".join(f[2:])
+        return "if" in t and ("el" in t) and obs != "bad-request"
     return False
 
 
 def finding_key(req, obs, detail):
-    m = re.match(r"FAIL:(else-after-else|elif-after-else) accepted", detail or "")
+    m = re.match(r"FAIL:(else-after-else|elif-after-else|unterminated-in-include|unmatched-in-include) accepted", detail or "")
     if m:
         return m.group(1) + " accepted"
+    m = re.match(r"FAIL:(skipped-group [a-z-]+) rejected", detail or "")
+    if m:
+        return m.group(1) + " rejected"
     m = re.match(r"FAIL:panic ([^:]+):\d+: (.*)$", detail or "")
     if m:
         return "panic %s: %s" % (m.group(1), re.sub(r"\d+", "N", m.group(2)))
@@ -47,6 +54,22 @@ def shrink(req):
         ds = f[1].split(";")
         for i in range(len(ds)):
             yield "C11.run\t" + ";".join(ds[:i] + ds[i + 1:])
+    elif f[0] == "C11.raw" and len(f) > 2:
+        # drop one included file, one API define, or one physical line of one file
+        for k in range(3, len(f)):
+            yield "\t".join(f[:k] + f[k + 1:])
+        if f[1]:
+            defs = f[1].split(",")
+            for i in range(len(defs)):
+                yield "\t".join([f[0], ",".join(defs[:i] + defs[i + 1:])] + f[2:])
+        for k in range(2, len(f)):
+            name, sep, body = ("", "", f[k]) if k == 2 else f[k].partition("=")
+            lines = re.split(r"(?<=\\n)", body)
+            lines = [x for x in lines if x]
+            if len(lines) > 60:
+                continue
+            for i in range(len(lines)):
+                yield "\t".join(f[:k] + [name + sep + "".join(lines[:i] + lines[i + 1:])] + f[k + 1:])
     elif f[0] == "C11.cond" and len(f) > 2:
         toks = f[2].split(" ")
         for i in range(len(toks)):
@@ -79,6 +102,17 @@ def search(ctx):
         out.append("C11.cond\tA=%s\tA" % a)
         out.append("C11.cond\tA=%s\tdefined ( A ) && ! defined B" % a)
         out.append("C11.cond\t\tU == %s" % a)
+    # raw text: defined in every spelling with every kind of operand, one-line headers acting on the includer's chain
+    for d in ("", "#define X 1\\n", "#define X(a) a\\n", "#define X Y\\n"):
+        for f in ("defined X", "defined(X)", "defined ( X )", "!defined X", "defined X && X", "X"):
+            out.append("C11.raw\t\t%s#if %s\\nT\\n#else\\nF\\n#endif\\n" % (d, f))
+    for h in ("#endif\\n", "#else\\n", "#elif 1\\n", "#if 1\\n", "#if 0\\n", "#ifdef A\\n", "t\\n"):
+        for m in ("#if 1\\na\\n#include \"h.h\"\\nb\\n#endif\\nc\\n", "#if 0\\na\\n#include \"h.h\"\\nb\\n#endif\\nc\\n",
+                  "#include \"h.h\"\\nb\\n#endif\\nc\\n", "a\\n#include \"h.h\"\\nb\\n"):
+            out.append("C11.raw\t\t%s\th.h=%s" % (m, h))
+    for hostile in ("$", "#3", "#while", "#else junk", "#include <a", "#pragma bogus", "#define", "#include \"missing.h\""):
+        out.append("C11.raw\t\t#if 0\\n%s\\n#endif\\nx\\n" % hostile)
+        out.append("C11.raw\t\t#if 0\\n#if 1\\n%s\\n#endif\\n#endif\\nx\\n" % hostile)
     return out
 
 
@@ -225,51 +259,77 @@ def custom(ctx):
 
 SPEC = {
     "id": "C11",
-    "gens": ["CondTables"],
+    "gens": ["CondTables", "MacroTables"],
     "lean_modules": ["RsslVerif.Thm.C11"],
     "theorems": [T + n for n in [
         "chain_tables_agree", "automaton_refines_tree", "automaton_refines_tree_any_stack",
         "inactive_has_no_effect", "inactive_if_not_evaluated", "unmatched_rejected", "well_nested_accepted",
         "tree_lines_are_grammatical", "else_after_else_accepted", "elif_after_else_accepted",
         "dead_elif_is_evaluated", "cond_tables_agree", "cond_parser_total", "cond_parse_eval",
-        "cond_parse_eval_closed", "total_of_no_operands", "total_under_literal_macros",
-        "literalMacros_define", "literalMacros_undef", "literalMacros_nil"]],
+        "cond_parse_eval_closed", "cond_parse_tokens", "cond_parse_unambiguous", "cond_rejects_illformed",
+        "total_of_no_operands", "total_under_literal_macros",
+        "literalMacros_define", "literalMacros_undef", "literalMacros_nil",
+        "include_shares_chain", "if_closed_by_includers_endif_accepted", "else_of_other_file_accepted",
+        "defined_is_protected", "cond_eval_composed", "composed_shape_agree"]],
     "harness": "c11",
     "nontrivial": nontrivial,
     "finding_key": finding_key,
     "shrink": shrink,
     "search": search,
     "custom": custom,
-    "level_text": "Proof: the model of ConditionChain + the gating of preprocess_command (built on the transition table, "
-                  "gating table and error variants re-extracted from the source each run) is proved, for every nesting of "
+    "level_text": "Proof: (1) the model of ConditionChain + the gating of preprocess_command (transition table, gating table, "
+                  "error variants re-extracted from the source each run) is proved, for every nesting of "
                   "#if/#ifdef/#ifndef/#elif/#else/#endif groups of any depth and length, to keep exactly the text and macro "
                   "definitions the tree-shaped C selection rule keeps, to ignore every line of an unselected group, and to "
-                  "reject exactly the unterminated / unmatched sequences with the right error variant; and the model of "
-                  "condition_parser.rs (operator tables, BinOp::apply and leaf arms re-extracted each run) is proved to "
-                  "evaluate every printed condition tree over || && == != < <= > >= ! parentheses defined() literals "
-                  "macros and unknown identifiers to its reference u64 value.",
-    "rule": "requests = directive sequences through the real rssl_preprocess::preprocess: exhaustive over the property's "
-            "10-symbol alphabet up to length 6 (quick) / 7 (thorough), random sequences of length <= 25 over an extended "
-            "alphabet (3 macros, #undef, #pragma, #include, unknown directives, random conditions), and random #if "
-            "conditions to depth 5 over literals {0,1,2,5,7,2^32-1,2^32,2^63,2^64-1}, macros and defined(); observed = "
-            "surviving token texts per line (incl. a trailing probe line naming every macro) or the error variant; "
-            "oracle = an independent reference C preprocessor for conditionals written in Rust; non-trivial = the request "
-            "has an #if-like line, an #elif/#else and text (sequences) or a binary operator (conditions)",
+                  "reject exactly the unterminated / unmatched sequences with the right error variant; (2) the model of "
+                  "condition_parser.rs (operator tables, BinOp::apply, leaf arms re-extracted each run) is proved on the token "
+                  "level: it accepts exactly the C grammar of conditions over || && == != < <= > >= ! parentheses literals "
+                  "identifiers (ill-formed sequences rejected), its parse is the unique syntax tree of the sequence modulo "
+                  "redundant parentheses, and the value is the reference u64 evaluation of that tree; (3) on the composed "
+                  "token-level model of preprocess.rs (C11 tables + the C12 macro engine + the per-file token loop + "
+                  "#include) `defined X`/`defined(X)` is proved to be replaced by 1/0 by name existence without expanding X, "
+                  "object-like macros with identifier-free bodies to be expanded before evaluation, and printed condition "
+                  "trees to evaluate to their reference value; (4) the condition chain is proved to be shared across "
+                  "#include for every includer state, with end-to-end negation witnesses of the per-file C rule "
+                  "(known findings).",
+    "rule": "requests through the real rssl_preprocess::preprocess: exhaustive directive sequences over the property's "
+            "10-symbol alphabet up to length 6 (quick) / 7 (thorough); random sequences of length <= 25 over an extended "
+            "alphabet; random #if conditions to depth 5 over literals {0,1,2,5,7,2^32-1,2^32,2^63,2^64-1}, macros and "
+            "defined(); and raw multi-file source text (C11.raw: random directive spelling with blanks / comments / "
+            "splices / CRLF, function-like and operator macros, 7 spellings of defined, hex/octal/u literals, unsupported "
+            "operators and literal forms, 54 hostile lines inside skipped groups, 12 kinds of included files incl. chains "
+            "that cross the include boundary, API defines, nesting to depth 420). Observed = surviving token texts per "
+            "line or the error variant; oracle = independent reference C preprocessors written in Rust (one on the "
+            "symbolic requests, one on the raw text: translation phases 2-4, Prosser macro expansion, full C "
+            "constant-expression grammar, per-file if-section balance); non-trivial = the request has an #if-like line, "
+            "an #elif/#else and text (sequences, raw) or a binary operator (conditions)",
     "trusted_base": [
         "Lean 4.33 kernel; axioms propext / Classical.choice / Quot.sound only (audited by #print axioms)",
         "tools/translate.py + tools/gens/c11.py (CondTables: ConditionState, ConditionChain::switch/pop/is_active, the "
-        "skip gating of every preprocess_command arm, BinOp::apply, every parse_pN::parse_op, parse_p2, parse_leaf) — "
+        "skip gating of every preprocess_command arm, BinOp::apply, every parse_pN::parse_op, parse_p2, parse_leaf, "
+        "MAX_INCLUDE_DEPTH, that #include passes the includer's chain on unchecked, that `defined` is tested before the "
+        "macro loop and only in #if/#elif) and tools/gens/c12.py (MacroTables, used by the imported C12 macro model) — "
         "re-run on /repo's working tree every time",
-        "hand-written recursion scheme of Model/CondExpr.lean and line processing of Model/CondChain.lean; tied to the "
+        "hand-written recursion scheme of Model/CondExpr.lean, line processing of Model/CondChain.lean, and the "
+        "composed token-level Model/CondFile.lean (built on C12's Model/Macro.lean + Model/Include.lean); tied to the "
         "code by the correspondence run only",
         "Spec/CPre.lean: our reading of ISO C 6.10.1 (if-sections as a tree, first true group, nothing in a skipped group "
-        "is looked at) and of the operator semantics on u64",
-        "the lexer (text -> tokens) is outside this property's model (C10); requests are rendered to text by the harness",
+        "is looked at), of the C grammar of conditions (Gram) and of the operator semantics on u64",
+        "the lexer (text -> tokens) is outside this property's model (C10): for C11.raw the harness hands the model the "
+        "token streams the real lexer produces (and replicates the switching of the header-name lexing mode); the "
+        "oracle works from the text with its own tokenizer",
     ],
     "assumptions": [
-        "macros are object-like with identifier-free bodies (function-like macros and rescanning belong to C12)",
-        "included files hold ordinary text only (nested directives in includes belong to C12)",
+        "theorems about selection (automaton_refines_tree) are stated for object-like macros with identifier-free bodies "
+        "and included files that hold ordinary text; function-like macros, rescanning and directives inside included "
+        "files are covered by the composed model Model/CondFile.lean, for which cond_eval_composed / "
+        "defined_is_protected / include_shares_chain are proved and everything else is checked by correspondence",
+        "cond_eval_composed covers #if lines made of non-macro tokens, `defined` operators (any operand) and object-like "
+        "macros with identifier-free bodies; invocations of function-like macros and identifier-bearing bodies inside "
+        "conditions are checked by correspondence only (expansion itself is C12's property)",
         "the theorems about selection assume well-formed #elif conditions: the code evaluates #elif conditions even in "
         "groups C never looks at (theorem dead_elif_is_evaluated), which the property excludes",
+        "termination guards of Model.CondFile.topLoop are run-time tests (reported as `unsupported` if they ever fire; "
+        "they never did); C12 proves the analogous guards of applyLoop unreachable",
     ],
 }
